@@ -92,7 +92,7 @@ pub fn lit_name(tok: &str) -> String {
 
 /// exact decimal value of a float literal token as (numerator, denominator) digit strings
 fn lit_value(tok: &str) -> (String, String) {
-    let t = tok.trim_end_matches("f64").trim_end_matches('_').replace('_', "");
+    let t = tok.trim_start_matches('-').trim_end_matches("f64").trim_end_matches('_').replace('_', "");
     let (mant, exp) = match t.find(|c| c == 'e' || c == 'E') {
         Some(i) => (t[..i].to_string(), t[i + 1..].parse::<i64>().unwrap_or(0)),
         None => (t.clone(), 0),
@@ -132,6 +132,7 @@ pub fn emit_literals(lits: &BTreeSet<String>) -> String {
     for tok in lits {
         let (n, d) = lit_value(tok);
         let val = if d == "1" { format!("{}real", n) } else { format!("{}real / {}real", n, d) };
+        let val = if tok.starts_with('-') { format!("-({})", val) } else { val };
         let clean = tok.trim_end_matches("f64").trim_end_matches('_');
         o.push_str(&format!(
             "    #[verifier::external_body] pub fn {}() -> (r: F64) ensures fv(r) == Ext::Fin({}) {{ F64({}f64) }}\n",
@@ -201,6 +202,39 @@ impl<'a> VisitMut for Rules<'a> {
     }
 
     fn visit_block_mut(&mut self, b: &mut syn::Block) {
+        if self.ctx.on("R18") {
+            // R18 (A-normal form): `X.m(ARG);` for the methods listed in opts.anf_calls -> `let vx_a<k> = ARG; X.m(vx_a<k>);`
+            // so that a proof can name the argument (argument evaluation order is unchanged)
+            let mut i = 0;
+            while i < b.stmts.len() {
+                let mut hoist: Vec<(syn::Ident, syn::Expr)> = vec![];
+                let target: Option<&mut syn::ExprMethodCall> = match &mut b.stmts[i] {
+                    syn::Stmt::Expr(syn::Expr::MethodCall(mc), Some(_)) => Some(mc),
+                    syn::Stmt::Expr(syn::Expr::Try(t), Some(_)) => match &mut *t.expr { syn::Expr::MethodCall(mc) => Some(mc), _ => None },
+                    _ => None,
+                };
+                if let Some(mc) = target {
+                    let listed = self.ctx.opts["anf_calls"].as_array().map(|a| a.iter().any(|v| v.as_str() == Some(&mc.method.to_string()))).unwrap_or(false);
+                    if listed {
+                        for a in mc.args.iter_mut() {
+                            if matches!(a, syn::Expr::Path(_)) { continue; }
+                            let k = self.ctx.fresh();
+                            let id = syn::Ident::new(&format!("vx_a{}", k), proc_macro2::Span::call_site());
+                            let arg = a.clone();
+                            *a = syn::parse_quote!(#id);
+                            hoist.push((id, arg));
+                        }
+                    }
+                }
+                let nh = hoist.len();
+                for (j, (id, arg)) in hoist.into_iter().enumerate() {
+                    b.stmts.insert(i + j, syn::parse_quote!(let #id = #arg;));
+                    self.ctx.used("R18");
+                }
+                i += nh;
+                i += 1;
+            }
+        }
         if self.ctx.on("R17") {
             // R17: `let v = M.get_mut(K).unwrap(); *v op= E;`  ->  `let vx_old = *M.get(K).unwrap(); M.update_existing(K, vx_old op (E));`
             let mut i = 0;
@@ -274,7 +308,20 @@ impl<'a> VisitMut for Rules<'a> {
                 };
                 if let (Some(recv), syn::Pat::Tuple(tp)) = (recv, &*fl.pat) {
                     let rtxt = norm(&recv.to_token_stream().to_string());
-                    let listed = self.ctx.opts["r13_maps"].as_array().map(|a| a.iter().any(|v| v.as_str().map(norm).as_deref() == Some(&rtxt))).unwrap_or(false);
+                    // entries: "<receiver expr>" or "<receiver expr>:ref|val|mut" (explicit mode when the syntax does not show it)
+                    let mut listed = false;
+                    let mut mode = mode;
+                    if let Some(a) = self.ctx.opts["r13_maps"].as_array() {
+                        for v in a {
+                            if let Some(t) = v.as_str() {
+                                let (ex, md) = match t.rsplit_once(':') { Some((x, m)) if m == "ref" || m == "val" || m == "mut" => (x, Some(m)), _ => (t, None) };
+                                if norm(ex) == rtxt {
+                                    listed = true;
+                                    if let Some(m) = md { mode = if m == "ref" { "ref" } else if m == "val" { "val" } else { "mut" }; }
+                                }
+                            }
+                        }
+                    }
                     if listed && tp.elems.len() == 2 {
                         let k = self.ctx.fresh();
                         let nn = syn::Ident::new(&format!("vx_n{}", k), proc_macro2::Span::call_site());
@@ -424,7 +471,48 @@ impl<'a> VisitMut for Rules<'a> {
                 }
             }
         }
+        // R10: a negated float literal `-k` is the literal constant -k (exact in IEEE arithmetic)
+        if self.ctx.on("R10") {
+            if let syn::Expr::Unary(u) = e {
+                if matches!(u.op, syn::UnOp::Neg(_)) {
+                    if let syn::Expr::Lit(l) = &*u.expr {
+                        let tok = match &l.lit {
+                            syn::Lit::Float(f) => Some(f.to_string()),
+                            syn::Lit::Int(i) if i.suffix() == "f64" => Some(i.base10_digits().to_string()),
+                            _ => None,
+                        };
+                        if let Some(tok) = tok {
+                            let ntok = format!("-{}", tok);
+                            let name = syn::Ident::new(&lit_name(&ntok), proc_macro2::Span::call_site());
+                            self.ctx.literals.insert(ntok);
+                            *e = syn::parse_quote!(F64::#name());
+                            self.ctx.used("R10");
+                            return;
+                        }
+                    }
+                }
+            }
+        }
         syn::visit_mut::visit_expr_mut(self, e);
+        // R21 (abstraction): `<place>.<counter> += 1` for the auxiliary-name counters listed in opts.counter_fields
+        // -> `<place>.<counter> = vx_counter_next(<place>.<counter>)` (no postcondition: 2^32 auxiliaries are assumed not to be reached)
+        if self.ctx.on("R21") {
+            if let syn::Expr::Binary(b) = e {
+                if matches!(b.op, syn::BinOp::AddAssign(_)) {
+                    if let syn::Expr::Field(f) = &*b.left {
+                        if let syn::Member::Named(id) = &f.member {
+                            let listed = self.ctx.opts["counter_fields"].as_array().map(|a| a.iter().any(|v| v.as_str() == Some(&id.to_string()))).unwrap_or(false);
+                            if listed {
+                                let l = &b.left;
+                                *e = syn::parse_quote!(#l = vx_counter_next(#l));
+                                self.ctx.used("R21");
+                                return;
+                            }
+                        }
+                    }
+                }
+            }
+        }
         match e {
             syn::Expr::Binary(b) if self.ctx.on("R1") => {
                 use syn::BinOp::*;
